@@ -222,16 +222,9 @@ def _none_arith(ctx, fi, it, case):
         ctx.holds("C13.2", fi, fi.node, f"{fi.name} [{case}]: no arithmetic on absent parameters", "None-valued optional parameters are not used")
 
 
-def _q_guard(ctx, fi, rule):
-    ok = None
-    for ifn, test, excs in find_raise_guards(fi):
-        s = src_of(test).replace(" ", "")
-        if "M&(M-1)" in s or "M&M-1" in s:
-            ok = (ifn, excs)
-    if ok is None:
-        ctx.violation(rule, fi, fi.node, f"{fi.qualname}: M power-of-two guard", "no guard `M & (M-1)` -> ValueError")
-    else:
-        ctx.check(rule, "ValueError" in ok[1], fi, ok[0], f"{fi.qualname}: M power-of-two guard", "raises ValueError", f"raises {ok[1]}, documented ValueError")
+def _q_guard(ctx, fi, rule, assumptions=None, extra=None, min_m=1):
+    from ..rules import check_pow2_guard
+    check_pow2_guard(ctx, rule, fi, assumptions=assumptions, extra=extra, min_m=min_m)
 
 
 def _grid_argmin(v):
@@ -328,7 +321,7 @@ def rule_error_probabilities(ctx):
                       f"returns {v!r}"[:400] + " -- not M/(2(M-1))*(1-Q((um-mu1)/s1)*(1-Q((um-mu0)/s0))^(M-1))")
         else:
             _check_soft(ctx, fi, it, v, rets[0].node, "ppm.BER_analizer('estimator', soft)", mu1 - mu0, s0, s1, S("M"), factor)
-    _q_guard(ctx, fi, "C13.7")
+    _q_guard(ctx, fi, "C13.7", assumptions={"mode": "estimator"}, extra={"eye_obj": _eye(), "decision": Const("hard")})
     # ---------------- PPM theory
     fi = pkg.func("ppm.theory_BER")
     for dec in ("hard", "soft"):
@@ -506,7 +499,7 @@ def run(ctx):
     rule_error_probabilities(ctx)
     rule_optimum_threshold(ctx)
     rule_device_counterparts(ctx)
-    _q_guard(ctx, ctx.pkg.func("utils.theory_BER.<locals>.temp"), "C13.7")
+    _q_guard(ctx, ctx.pkg.func("utils.theory_BER.<locals>.temp"), "C13.7", assumptions={"modulation": "ppm", "decision": "hard", "threshold": None, "amplify": False}, min_m=2)
     check_late_binding(ctx, "C13.8", ["utils.theory_BER", "utils.noise_variances", "utils.average_voltages", "utils.p_ase", "utils.optimum_threshold", "ook.theory_BER", "ook.THRESHOLD_EST", "ook.BER_analizer", "ppm.theory_BER", "ppm.THRESHOLD_EST", "ppm.BER_analizer"])
     ctx.require_min("C13.2", 20)
     ctx.require_min("C13.3", 14)
